@@ -814,6 +814,25 @@ func exhaustiveC20(thorough bool, emit func(C20Case) bool) {
 			return
 		}
 	}
+	// a long-running process: more calls of Symmetrical than a 16-bit counter holds. Round 0 uses
+	// every ordered pair of bytes (x,y), x != y, once, as the only off-diagonal pair of a small
+	// matrix; round 1 - exactly 65536 calls later each - uses the mirrored pair (y,x) with another
+	// score. Each call is a call like the first: nothing an earlier call saw is a conflict now.
+	for round := 0; round < 2; round++ {
+		for q := 0; q < 65536; q++ {
+			x, y := q>>8, q&255
+			if round == 1 {
+				x, y = y, x
+			}
+			es := []MatEntry{{A: x, B: y, V: gen.F(float64(1 + q%7 + round))}}
+			if x == y {
+				es = append(es, MatEntry{A: x, B: x ^ 1, V: 2}, MatEntry{A: x ^ 1, B: x, V: 2})
+			}
+			if !emit(C20Case{Kind: "sym", Entries: es}) {
+				return
+			}
+		}
+	}
 	// GoString with every byte value as a key and assorted scores
 	var es []MatEntry
 	scores := []float64{0, 1, -1, 0.5, 1e21, -1e-6, 1e100, 123456.789, -4, 2.5e-300}
